@@ -49,4 +49,11 @@ CHECKS = [
              "SCRIPT_NAME (process environment or forwarder header) x 4 worker classes are served by the real handle(); the environ the application "
              "received must equal the reference mapping key by key (incl. no invented HTTP_* keys); plain requests must be accepted.",
      "note": "fragment split at '#' as pinned by the suite; repeated Content-Type/Length may be any sent value; absolute-form with empty path may give '' or '/'"},
+    {"id": "C08", "engine": "W",
+     "technique": "property-based testing (Hypothesis) of header spellings x peers x trust configuration against a reference trust model of the WSGI environ",
+     "text": "Keep-alive request sequences with hyphen/underscore/case spellings of proxy-fact and ordinary headers x peers (listed, unlisted, IPv6, unix) x "
+             "allow lists x forwarder_headers x header_map x secure_scheme_headers x PROXY lines x 4 worker classes; every environ the application got "
+             "is compared with the reference (exact HTTP_* mapping, scheme/SCRIPT_NAME/PATH_INFO/REMOTE_ADDR only from trusted peers, PROXY address on "
+             "every request, refusals without application call).",
+     "note": "reference model written from the documented settings semantics; header_map=dangerous only checked for HTTP_* mapping"},
 ]
